@@ -350,6 +350,7 @@ package client
 // send log is (sentTo(nc, i), sentPt(nc, i)), sentN(nc) entries so far. SendNodePoint itself (encode and
 // publish/request on NATS) is trusted; an attempt is logged whether or not the bus reports an error.
 
+//@ model func busOps(nc *nats.Conn) int
 //@ model func sentN(nc *nats.Conn) int
 //@ model func sentTo(nc *nats.Conn, i int) string
 //@ model func sentPt(nc *nats.Conn, i int) data.Point
@@ -531,6 +532,8 @@ package client
 // Trusted: lookups and the notification path of ruleRunActions do not write points (they are not part of the send log).
 //@ extern client.GetNodes(nc, parent, id, typ, includeDel)
 //@   fresh res0
+//@   modifies state(nc)
+//@   ensures busOps(nc) == old(busOps(nc)) + 1 && logKept(nc) && sentN(nc) == old(sentN(nc))
 //@ extern data.(NodeEdge).Desc(n)
 //@ extern data.(*Notification).ToPb(n)
 //@   fresh res0
@@ -607,7 +610,7 @@ package client
 //@   local points data.Points#1
 //@   local nodeID string#1
 //@   requires msg != nil && cs != nil
-//@   modifies cs.client
+//@   modifies cs.client, state(cs.nc)
 //@   ensures [C08] log-kept: toldKept(cs.client)
 //@   ensures [C08] foreign-node-points-delivered: pbOK(msg.Data) && splitN(msg.Subject, ".") == 3 && (forall k int :: 0 <= k && k < pbN(msg.Data) ==> !own(pbPt(msg.Data, k), splitPart(msg.Subject, ".", 2), cs.node.ID)) ==> toldN(cs.client) == old(toldN(cs.client)) + 1 && !toldEdge(cs.client, old(toldN(cs.client))) && toldNode(cs.client, old(toldN(cs.client))) == splitPart(msg.Subject, ".", 2) && batchIs(toldPts(cs.client, old(toldN(cs.client))), msg.Data)
 //@   ensures [C08] own-node-points-dropped: splitN(msg.Subject, ".") == 3 && (exists k int :: 0 <= k && k < pbN(msg.Data) && own(pbPt(msg.Data, k), splitPart(msg.Subject, ".", 2), cs.node.ID)) ==> toldN(cs.client) == old(toldN(cs.client))
@@ -623,5 +626,7 @@ package client
 //@     decreases len(points) - rangeindex
 //@   loop 3:
 //@     invariant true
+//@     modifies state(cs.nc)
 //@   loop 4:
 //@     invariant true
+//@     modifies state(cs.nc)
